@@ -191,6 +191,9 @@ def _build_and_compare(ctx, script, symbols, n_eq, rng, settings_list, case):
                     if getattr(M, a) != getattr(R, a):
                         ctx.violation('variant-attributes', f'{key}: {a} = {getattr(M, a)!r}, build_model(typed) has {getattr(R, a)!r}', c2)
                         return
+            if R.LAGS < 0 or R.LEADS < 0:
+                ctx.violation('variant-attributes', f'lag / lead *lengths* LAGS={R.LAGS}, LEADS={R.LEADS} built with {kw}', c2)
+                return
             # behaviour
             n = R.LAGS + R.LEADS + 3
             data = ref.make_data(list(R.NAMES), n, rng, 'positive')
@@ -214,7 +217,8 @@ def _build_and_compare(ctx, script, symbols, n_eq, rng, settings_list, case):
 def run_shard(ctx):
     rng = ctx.rng('c15')
     rp = gen.RandomPrograms(rng, max_depth=3, max_eqs=5, max_names=8, big_offsets=True, lhs_offsets=(0, 0, 0, -1))
-    all_settings = [{}, {'lags': 0}, {'lags': 2, 'leads': 1}, {'min_lags': 3}, {'min_leads': 2, 'lags': 1}, {'leads': 0, 'min_lags': 1}]
+    all_settings = [{}, {'lags': 0}, {'lags': 2, 'leads': 1}, {'min_lags': 3}, {'min_leads': 2, 'lags': 1}, {'leads': 0, 'min_lags': 1},
+                    {'min_lags': -2}, {'min_leads': -1, 'min_lags': np.int64(0)}]      # a minimum below zero is no minimum at all
     fixed = ['`self._Y[t] = self._Y[t] * 2`\n`self._Y[t] = self._Y[t] * 2`\nY = X', 'Y = X\n```\nself._Y[t] = self._Y[t] + 1\n```\n```\nself._Y[t] = self._Y[t] + 1\n```',
              'Y = X\n```\nassert self._X[t] < 0.0, "X must be negative"\n```', 'Y = X\n```\nif __debug__:\n    self._Y[t] = self._Y[t] + 1\n```',
              '', '# only a comment\n', '```\npass\n```', '`x = 1`', '```\nself._Y[t] = 2.0\n```\nY = Y', 'Y = X', 'Y = 1\nZ = Y[-1] + {a} * <e>[1]']
